@@ -6,7 +6,7 @@
 #define VS_HTTP_H
 #include "vs_common.h"
 
-struct vs_astr { size_t size; };
+struct vs_astr { size_t size; const char *src; };   /* src: ghost, where the bytes were copied from (ctor/assign from (ptr,n)) */
 #define ASTR_MAX_SIZE ((size_t)0x3fffffffffffffff)      /* std::string::max_size() of libstdc++ (LP64) */
 
 extern size_t vs_budget;        /* ghost: the configured maximum request size (C03: nothing is reserved beyond it) */
@@ -18,15 +18,15 @@ extern size_t g_w;              /* ghost witness for the numeral scanners */
 static inline size_t vs_astr_size(const struct vs_astr *s) { return s->size; }
 static inline bool   vs_astr_empty(const struct vs_astr *s) { return s->size == 0; }
 /* std::string(const char *literal): the callers only pass string literals; the length is not tracked */
-static inline struct vs_astr vs_astr_ctor_cstr(const char *p) { struct vs_astr r; size_t n; __CPROVER_assume(n <= 64); (void)p; r.size = n; return r; }
-static inline struct vs_astr vs_astr_ctor_empty(void) { struct vs_astr r; r.size = 0; return r; }
+static inline struct vs_astr vs_astr_ctor_cstr(const char *p) { struct vs_astr r; size_t n; __CPROVER_assume(n <= 64); r.src = p; r.size = n; return r; }
+static inline struct vs_astr vs_astr_ctor_empty(void) { struct vs_astr r; r.size = 0; r.src = 0; return r; }
 /* std::string(const char *p, size_t n): reads [p, p+n); length_error when n > max_size() */
 static inline struct vs_astr vs_astr_ctor_ptr_n(const char *p, size_t n)
 {
-    struct vs_astr r; r.size = 0;
+    struct vs_astr r; r.size = 0; r.src = 0;
     if (n > ASTR_MAX_SIZE) { vs_exc = VS_EXC_LENGTH_ERROR; return r; }
     __CPROVER_assert(n == 0 || __CPROVER_r_ok(p, n), "std::string(ptr, n): source range [ptr, ptr+n) is readable");
-    r.size = n;
+    r.size = n; r.src = p;
     return r;
 }
 static inline struct vs_astr *vs_astr_append_ptr_n(struct vs_astr *s, const char *p, size_t n)
@@ -45,7 +45,7 @@ static inline void vs_astr_reserve(struct vs_astr *s, size_t n)
     if (n > ASTR_MAX_SIZE) { vs_exc = VS_EXC_LENGTH_ERROR; return; }
     __CPROVER_assert(n <= vs_budget, "std::string::reserve(n): n within the configured maximum request size (C03 memory budget)");
 }
-static inline struct vs_astr *vs_astr_assign(struct vs_astr *dst, const struct vs_astr *src) { dst->size = src->size; return dst; }
+static inline struct vs_astr *vs_astr_assign(struct vs_astr *dst, const struct vs_astr *src) { dst->size = src->size; dst->src = src->src; return dst; }
 
 /* strtol(p, &end, base): abstract numeral scanner (see VS_SCAN_STOPS in vs_common.h); result value unconstrained */
 long vs_strtol(const char *p, char **end, int base)
